@@ -1,4 +1,5 @@
 """C15 - graph decomposition primitives are exact; edit histories keep the store consistent."""
+import os
 import random
 
 from engine import REPO, gen_states, pool_map
@@ -55,14 +56,57 @@ def apply_op(g, o):
         g.add_edge(name(o["a"]), o["ao"], name(o["b"]), o["bo"], o["ov"], list(o["tg"]) or None)
 
 
+def run_loaded(cid, ops, how):
+    """the same graph, not built through the API but written as a GFA file (overlaps as given, sequences or '*') and LOADED:
+    GFA(path) / GFA(path, low_memory=True) / gzip-compressed. Only the final state can be observed."""
+    import tempfile
+    import shutil
+    from gaftools.gfa import GFA
+
+    d = tempfile.mkdtemp(prefix="c15load_")
+    try:
+        lines = ["H\tVN:Z:1.0"]
+        for o in ops:
+            if o["op"] == "AddNode":
+                sq = "ACGT"[: 1 + o["n"] % 4]
+                lines.append(f"S\t{name(o['n'])}\t{'*' if how == 'star' else sq}\tLN:i:{len(sq)}")
+        for o in ops:
+            if o["op"] == "AddLink":
+                lines.append("\t".join(["L", name(o["a"]), o["ao"], name(o["b"]), o["bo"], f"{o['ov']}M"] + list(o["tg"])))
+        path = os.path.join(d, "g.gfa" + (".gz" if how == "gz" else ""))
+        if how == "gz":
+            import gzip
+
+            with gzip.open(path, "wt") as f:
+                f.write("\n".join(lines) + "\n")
+        else:
+            with open(path, "w") as f:
+                f.write("\n".join(lines) + "\n")
+        empty = {"nodes": [], "half": [], "etags": []}
+        noq = {"exc": "", "comps": [], "bicc": [], "dfs": []}
+        events = [{"o": o, "exc": "", "hasq": False, "skip": True, "proj": empty, "q": noq} for o in ops]
+        try:
+            g = GFA(path, low_memory=(how in ("lm", "star")))
+            pj = project(g)
+            pj["etags"] = [t for t in pj["etags"] if t[4] != [0]]      # the reader's placeholder for "no tags"
+            events[-1].update({"skip": False, "proj": pj, "hasq": True, "q": queries(g)})
+        except Exception as e:  # noqa
+            events[-1]["exc"] = f"{type(e).__name__}: {e}"[:200]
+        return {"id": cid, "events": events, "qmask": [False] * (len(ops) - 1) + [True], "loaded": how}
+    finally:
+        shutil.rmtree(d, ignore_errors=True)
+
+
 def run_history(job):
-    cid, ops, qmask = job
+    cid, ops, qmask = job[:3]
+    if len(job) > 3:
+        return run_loaded(cid, ops, job[3])
     from gaftools.gfa import GFA
 
     g = GFA()
     events = []
     for k, o in enumerate(ops):
-        ev = {"o": o, "exc": "", "hasq": False, "proj": {"nodes": [], "half": [], "etags": []}, "q": {"exc": "", "comps": [], "bicc": [], "dfs": []}}
+        ev = {"o": o, "exc": "", "hasq": False, "skip": False, "proj": {"nodes": [], "half": [], "etags": []}, "q": {"exc": "", "comps": [], "bicc": [], "dfs": []}}
         try:
             apply_op(g, o)
             ev["proj"] = project(g)
@@ -204,6 +248,12 @@ def run(ctx):
         ops = ops_from_lines(big, set(ball))
         if len(ops) > 1:
             gjobs.append((f"ball{bi}", ops, [False] * (len(ops) - 1) + [True]))
+    # every third graph is also read from a file it was written to: plain, low-memory, '*' sequences, gzip
+    loaded = []
+    for k, j in enumerate(gjobs):
+        if k % 3 == 0 and not any(o["op"] == "DelNode" for o in j[1]) and any(o["op"] == "AddLink" for o in j[1]):
+            loaded.append((j[0] + "_ld", j[1], j[2], ["full", "lm", "star", "gz"][(k // 3) % 4]))
+    gjobs += loaded
     gcases = pool_map(run_history, gjobs, chunk=64)
     ctx.evaluations += len(gcases)
     for c in gcases:
